@@ -135,6 +135,12 @@ Step ==
               /\ st' = [st EXCEPT !.sent = @ \cup {e.msgs[x] : x \in 1..Len(e.msgs)}]
               /\ slots' = IF Has(e, "save") THEN [slots EXCEPT ![e.save] = st'] ELSE slots
               /\ UNCHANGED << ep, live, cnt >>
+         [] live /\ e.e = "dec.tdecode" ->            \* TECMP::Decoder::Decode called directly: no routing, no state
+              /\ Report(IF \E x \in 1..Len(e.out) : "null" \in DOMAIN e.out[x] THEN {"C02"}
+                        ELSE (IF ~TecmpOK(e.in, e.out) THEN {"C15"} ELSE {}) \cup (IF e.out # TecmpDecode(e.in) THEN {"NC"} ELSE {})
+                             \cup (IF ~OutputBound(e.in, e.out) THEN {"C02"} ELSE {}))
+              /\ cnt' = [cnt EXCEPT !.tecmp_converted = @ + (IF Len(e.out) > 0 THEN 1 ELSE 0)]
+              /\ UNCHANGED << ep, live, st, slots >>
          [] live /\ e.e = "dec.note" -> Unch            \* an operation of the case that did not reach the decoder
          [] live /\ e.e = "dec.restore" ->
               /\ st' = slots[e.slot]
